@@ -141,12 +141,12 @@ example : premergeF 1 (.comp {} .append c16New) [.str "a"] (some c16Root) = .err
    list `ConfigList(L)`, whose data is `L`. -/
 theorem C16_append_first_stage (fuel : Nat) (f : Flags) (cs : List (Key × Node)) (path : Path) :
     premergeF (fuel + 1) (.comp f .append cs) path none =
-      .ok (newPlainList (cs.map (·.2)), false, none) ∧
-    native (newPlainList (cs.map (·.2))) = .list (cs.map (fun kv => native kv.2)) := by
+      .ok (newPlainList f (cs.map (·.2)), false, none) ∧
+    native (newPlainList f (cs.map (·.2))) = .list (cs.map (fun kv => native kv.2)) := by
   refine ⟨by simp [premergeF], ?_⟩
   rw [c16_native_newPlainList]; simp [List.map_map, Function.comp_def]
 
-example : native (newPlainList (c16New.map (·.2))) = .list [.scalar (.int 8), .scalar (.int 9)] := rfl
+example : native (newPlainList {} (c16New.map (·.2))) = .list [.scalar (.int 8), .scalar (.int 9)] := rfl
 
 /-! ### `!extend` -/
 
@@ -196,7 +196,7 @@ theorem C16_extend_fallback (fuel : Nat) (f : Flags) (cs : List (Key × Node)) (
     (root : Node)
     (hg : ∀ tf tk tcs, getNode root path = some (.comp tf tk tcs) → tk.isListFam = false) :
     premergeF (fuel + 1) (.comp f .extend cs) path (some root) =
-      .ok (newPlainList (cs.map (·.2)), false, some root) := by
+      .ok (newPlainList f (cs.map (·.2)), false, some root) := by
   simp only [premergeF]
   cases hn : getNode root path with
   | none => rfl
@@ -208,16 +208,16 @@ theorem C16_extend_fallback (fuel : Nat) (f : Flags) (cs : List (Key × Node)) (
 -- missing path, scalar, mapping
 example : getNode c16Root [.str "fresh"] = none := rfl
 example : premergeF 1 (.comp {} .extend c16New) [.str "fresh"] (some c16Root) =
-    .ok (newPlainList (c16New.map (·.2)), false, some c16Root) := rfl
+    .ok (newPlainList {} (c16New.map (·.2)), false, some c16Root) := rfl
 example : premergeF 1 (.comp {} .extend c16New) [.str "b"] (some c16Root) =
-    .ok (newPlainList (c16New.map (·.2)), false, some c16Root) := rfl
+    .ok (newPlainList {} (c16New.map (·.2)), false, some c16Root) := rfl
 example : premergeF 1 (.comp {} .extend c16New) [.str "a"] (some c16Root) =
-    .ok (newPlainList (c16New.map (·.2)), false, some c16Root) := rfl
+    .ok (newPlainList {} (c16New.map (·.2)), false, some c16Root) := rfl
 
 /- First stage (`into = None`): as for `!append`, the plain list `L`. -/
 theorem C16_extend_first_stage (fuel : Nat) (f : Flags) (cs : List (Key × Node)) (path : Path) :
     premergeF (fuel + 1) (.comp f .extend cs) path none =
-      .ok (newPlainList (cs.map (·.2)), false, none) := by
+      .ok (newPlainList f (cs.map (·.2)), false, none) := by
   simp [premergeF]
 
 example : (premergeF 1 (.comp {} .extend c16New) [.str "z"] none).map (fun r => native r.1) =
@@ -225,10 +225,10 @@ example : (premergeF 1 (.comp {} .extend c16New) [.str "z"] none).map (fun r => 
 
 /- The data of the fallback value: `ConfigList(L)` holds exactly the elements of `L`, in order
    (for any list of nodes, whatever their flags). -/
-theorem C16_newPlainList_native (vs : List Node) : native (newPlainList vs) = .list (vs.map native) :=
-  c16_native_newPlainList vs
+theorem C16_newPlainList_native (f : Flags) (vs : List Node) : native (newPlainList f vs) = .list (vs.map native) :=
+  c16_native_newPlainList f vs
 
-example : native (newPlainList [c16List, c16Leaf 4]) =
+example : native (newPlainList { safe := some false } [c16List, c16Leaf 4]) =
     .list [.list [.scalar (.int 1), .scalar (.int 2), .scalar (.int 3)], .scalar (.int 4)] := rfl
 
 /-! ### `!prev` -/
@@ -670,7 +670,7 @@ example : (flattenLoop (premergeF 2) c16Root [.comp {} .dict [(.str "moved", .le
    gains `q: L`. -/
 theorem C16_extend_stage_fallback (fuel : Nat) (rf sf f : Flags) (rcs cs : List (Key × Node)) (q : Key)
     (hq : alookup q rcs = none) (hdel : eDel (.comp sf .dict []) = false)
-    (hnew : reqNew [] [] (adopt sf .dict (newPlainList (cs.map (·.2)))) = none) :
+    (hnew : reqNew [] [] (adopt sf .dict (newPlainList f (cs.map (·.2)))) = none) :
     ∃ r, flattenLoop (premergeF (fuel + 2)) (.comp rf .dict rcs)
         [.comp sf .dict [(q, .comp f .extend cs)]] = .ok r ∧
       native r = .dict (nativeList rcs ++ [(q, .list (cs.map (fun kv => native kv.2)))]) := by
@@ -682,7 +682,7 @@ theorem C16_extend_stage_fallback (fuel : Nat) (rf sf f : Flags) (rcs cs : List 
   simp [List.map_map, Function.comp_def]
 
 example : alookup (.str "z") c16Root.children = none ∧
-    reqNew [] [] (adopt {} .dict (newPlainList (c16New.map (·.2)))) = none := by decide
+    reqNew [] [] (adopt {} .dict (newPlainList {} (c16New.map (·.2)))) = none := by decide
 example : (flattenLoop (premergeF 2) c16RootL [.comp {} .dict [(.str "z", .comp {} .extend c16New)]]).map
     native = .ok (.dict [(.str "l", .list [.scalar (.int 1), .scalar (.int 2), .scalar (.int 3)]),
       (.str "z", .list [.scalar (.int 8), .scalar (.int 9)])]) := rfl
@@ -722,13 +722,13 @@ theorem C16_numbered_preserved (fuel : Nat) (n : Node) (f : Flags) (cs : List (K
     | none =>
       simp only [hg, Except.ok.injEq, Prod.mk.injEq, Option.some.injEq] at h
       obtain ⟨rfl, _, rfl⟩ := h
-      exact ⟨c16_numbered_newPlainList hvs, hroot⟩
+      exact ⟨c16_numbered_newPlainList _ hvs, hroot⟩
     | some m =>
       cases m with
       | leaf lf lk =>
         simp only [hg, Except.ok.injEq, Prod.mk.injEq, Option.some.injEq] at h
         obtain ⟨rfl, _, rfl⟩ := h
-        exact ⟨c16_numbered_newPlainList hvs, hroot⟩
+        exact ⟨c16_numbered_newPlainList _ hvs, hroot⟩
       | comp tf tk tcs =>
         simp only [hg] at h
         split at h
@@ -742,7 +742,7 @@ theorem C16_numbered_preserved (fuel : Nat) (n : Node) (f : Flags) (cs : List (K
               (c16_numbered_removeNode hroot hr).2⟩
         · simp only [Except.ok.injEq, Prod.mk.injEq, Option.some.injEq] at h
           obtain ⟨rfl, _, rfl⟩ := h
-          exact ⟨c16_numbered_newPlainList hvs, hroot⟩
+          exact ⟨c16_numbered_newPlainList _ hvs, hroot⟩
   · simp only [premergeF] at h
     cases hs : splitPath p with
     | none => simp [hs] at h
